@@ -192,11 +192,105 @@ def _fresh(e, defs, prob, depth=0):
     return None
 
 
+def _canonical_scheme(prog, f):
+    """
+    Discover the roles of the exchange search from structure (never from names) and return a copy of the function in which the locals carry the
+    canonical names the value rules are written against: incumbent gbest_*, scan-best best_*, proposal prop_*.  None when a role cannot be found.
+      incumbent decision / triple : the arrays handed to the Solution constructor as soln_decn / soln_obj / soln_ineqcv / soln_eqcv
+      proposal triple             : the tuple assigned from <prob>.evalfn(<incumbent decision>) inside the scan
+      scan-best triple            : the tuple assigned from the incumbent triple at the top of the search loop
+      scores / violations         : X.sum() of an objective role, A.sum() + B.sum() of the two violation roles; scan-best = copy of the incumbent's
+      best_i / best_j             : the locals set to the outer / inner scan variable on acceptance
+    """
+    import copy
+    prob = f.params()[1] if len(f.params()) > 1 else "prob"
+    node = f.node
+    sol = [n for n in ast.walk(node) if isinstance(n, ast.Call) and isinstance(n.func, ast.Name) and n.func.id.endswith("Solution")]
+    if len(sol) != 1:
+        return None
+    kws, _ = kwargs_of(sol[0])
+    role = {}
+
+    def stacked(e):
+        if isinstance(e, ast.Call) and e.args and isinstance(e.args[0], (ast.List, ast.Tuple)) and len(e.args[0].elts) == 1 and isinstance(e.args[0].elts[0], ast.Name):
+            return e.args[0].elts[0].id
+        return e.id if isinstance(e, ast.Name) else None
+    for k, canon in (("soln_decn", "gbest_soln"), ("soln_obj", "gbest_obj"), ("soln_ineqcv", "gbest_ineqcv"), ("soln_eqcv", "gbest_eqcv")):
+        nm = stacked(kws.get(k)) if k in kws else None
+        if nm is None:
+            return None
+        role[nm] = canon
+    inv = {v: k for k, v in role.items()}
+    assigns = [n for n in ast.walk(node) if isinstance(n, ast.Assign) and len(n.targets) == 1]
+
+    def tup(e):
+        return [x.id for x in e.elts] if isinstance(e, ast.Tuple) and all(isinstance(x, ast.Name) for x in e.elts) else None
+    gtrip = [inv["gbest_obj"], inv["gbest_ineqcv"], inv["gbest_eqcv"]]
+    for a in assigns:
+        t, v = tup(a.targets[0]), tup(a.value)
+        if t and v == gtrip and len(t) == 3 and t != gtrip:
+            for nm, canon in zip(t, ("best_obj", "best_ineqcv", "best_eqcv")):
+                role.setdefault(nm, canon)
+        if t and len(t) == 3 and isinstance(a.value, ast.Call) and dump(a.value.func) == "%s.evalfn" % prob and t != gtrip:
+            for nm, canon in zip(t, ("prop_obj", "prop_ineqcv", "prop_eqcv")):
+                role.setdefault(nm, canon)
+    inv = {v: k for k, v in role.items()}
+    if not all(k in inv for k in ("best_obj", "prop_obj", "best_ineqcv", "prop_eqcv")):
+        return None
+    for pre in ("gbest", "prop"):
+        o, i_, e = inv[pre + "_obj"], inv[pre + "_ineqcv"], inv[pre + "_eqcv"]
+        for a in assigns:
+            if isinstance(a.targets[0], ast.Name):
+                t = "".join(dump(a.value).split())
+                if t == "%s.sum()" % o:
+                    role.setdefault(a.targets[0].id, pre + "_score")
+                elif t in ("%s.sum()+%s.sum()" % (i_, e), "%s.sum()+%s.sum()" % (e, i_)):
+                    role.setdefault(a.targets[0].id, pre + "_cv")
+    inv = {v: k for k, v in role.items()}
+    if not all(k in inv for k in ("gbest_score", "gbest_cv", "prop_score", "prop_cv")):
+        return None
+    for a in assigns:
+        if isinstance(a.targets[0], ast.Name) and isinstance(a.value, ast.Name) and a.targets[0].id not in role:
+            if a.value.id == inv["gbest_score"]:
+                role[a.targets[0].id] = "best_score"
+            elif a.value.id == inv["gbest_cv"]:
+                role[a.targets[0].id] = "best_cv"
+    # best_i / best_j: set to the scan variables
+    loops = [n for n in ast.walk(node) if isinstance(n, ast.For) and isinstance(n.target, ast.Name)]
+    nest = [(o, i_) for o in loops for i_ in o.body if isinstance(i_, ast.For) and isinstance(i_.target, ast.Name)]
+    if len(nest) != 1:
+        return None
+    ov, iv = nest[0][0].target.id, nest[0][1].target.id
+    for a in assigns:
+        if isinstance(a.targets[0], ast.Name) and isinstance(a.value, ast.Name) and a.targets[0].id not in role:
+            if a.value.id == ov:
+                role[a.targets[0].id] = "best_i"
+            elif a.value.id == iv:
+                role[a.targets[0].id] = "best_j"
+    if sorted(role.values()) != sorted(set(role.values())) or len(set(role.values())) < 17:
+        return None
+    if all(k == v for k, v in role.items()):
+        return f
+    taken = {n.id for n in ast.walk(node) if isinstance(n, ast.Name)} - set(role)
+    if taken & set(role.values()):
+        return None
+    new = copy.deepcopy(node)
+    for n in ast.walk(new):
+        if isinstance(n, ast.Name) and n.id in role:
+            n.id = role[n.id]
+    g = copy.copy(f)
+    g.node = new
+    return g
+
+
 def check_hillclimber(prog, rep, mod, cname):
     c = prog.get_class(cname, mod)
     f = prog.own_method(c, "minimize")
     rep.saw(f)
     construct = f.qualname
+    fc = _canonical_scheme(prog, f)
+    if fc is not None:
+        f = fc
     prob = f.params()[1]
     defs = _defs(f)
     adefs = _alldefs(f)
